@@ -33,7 +33,7 @@ Record blk := { b_h : N; b_txs : list tx; b_obs : list txobs;
                 b_rinfo : option (N * list N * Z);             (* castor id, group members, blocks per epoch *)
                 b_post : ostate; b_qh : N; b_views : oviews }.
 
-Record case := { c_ids : list N; c_idkeys : list (N * N); c_H : list (N * N);
+Record case := { c_gates : gate; c_ids : list N; c_idkeys : list (N * N); c_H : list (N * N);
                  c_au64 : list (N * N); c_addr : list (N * N);
                  c_contracts : list N; c_accts : list N; c_addrs : list N; c_heights : list N;
                  c_pre : ostate; c_blocks : list blk }.
@@ -47,14 +47,14 @@ Let H := tblN (c_H c) (fun x => (2 * x + 1)%N).
 Let idkey := tblN (c_idkeys c) (fun _ => 0%N).
 Let au64 := tblN (c_au64 c) (fun _ => 0%N).
 Let addr_of := tblN (c_addr c) (fun a => a).
-Let e : env := {| ids := c_ids c; contract := fun a => existsb (N.eqb a) (c_contracts c) |}.
+Let e : env := {| ids := c_ids c; contract := fun a => existsb (N.eqb a) (c_contracts c); gates := c_gates c |}.
 
 Definition vw (s : kst) : st := view H idkey au64 s.
 
 Definition load_store (ms : list mrec) : kstore :=
   fold_left (fun st (m : mrec) =>
     let '(k, i, ap, stk, ac, stt) := m in
-    k_apply_w H idkey (k_apply_w H idkey st (WNew k i ap stk ac)) (WUpd k i stk ac stt)) ms (fun _ _ => None).
+    k_apply_w H idkey (k_apply_w H idkey st (WNew k i ap stk ac true)) (WUpd k i stk ac (Some stt))) ms (fun _ _ => None).
 
 Definition load_bal (l : list (N * Z)) : bals := fold_right (fun p b => upd b (fst p) (snd p)) (fun _ => 0) l.
 
@@ -165,8 +165,9 @@ Definition VW ba i0 i1 t c a0 a1 vs : oviews :=
   {| v_by_account := ba; v_iter0 := i0; v_iter1 := i1; v_total := t; v_count := c; v_all0 := a0; v_all1 := a1; v_vstake := vs |}.
 Definition BK h txs obs rw ri post qh vw : blk :=
   {| b_h := h; b_txs := txs; b_obs := obs; b_rewards := rw; b_rinfo := ri; b_post := post; b_qh := qh; b_views := vw |}.
-Definition CS i ik ht au ad ct ac aa hs pre bs : case :=
-  {| c_ids := i; c_idkeys := ik; c_H := ht; c_au64 := au; c_addr := ad; c_contracts := ct; c_accts := ac; c_addrs := aa;
+Definition GT a b c d f : gate := {| g002 := a; g003 := b; g004 := c; g012 := d; g026 := f |}.
+Definition CS g i ik ht au ad ct ac aa hs pre bs : case :=
+  {| c_gates := g; c_ids := i; c_idkeys := ik; c_H := ht; c_au64 := au; c_addr := ad; c_contracts := ct; c_accts := ac; c_addrs := aa;
      c_heights := hs; c_pre := pre; c_blocks := bs |}.
 
 (* ---- literal key bytes: a case family in which H is the Gallina SHA-256 (C20/Sha256.v) on the REAL id bytes ----
@@ -196,7 +197,7 @@ Definition check_lit (l : lcase) : bool :=
   let c := l_case l in
   let tbl := flat_map (fun p => chain7 (snd p)) (c_idkeys c) in
   list_eqb nn_eqb tbl (l_chain l)
-  && check {| c_ids := c_ids c; c_idkeys := c_idkeys c; c_H := tbl; c_au64 := c_au64 c; c_addr := c_addr c;
+  && check {| c_gates := c_gates c; c_ids := c_ids c; c_idkeys := c_idkeys c; c_H := tbl; c_au64 := c_au64 c; c_addr := c_addr c;
               c_contracts := c_contracts c; c_accts := c_accts c; c_addrs := c_addrs c; c_heights := c_heights c;
               c_pre := c_pre c; c_blocks := c_blocks c |}.
 
